@@ -128,6 +128,16 @@ def child_main(spec_file, out_file):
         ctrl.start()
     else:
         aegean_verif_hooks.handler = None
+    BANE.memory_id = None
+
+    def _memid_watch():
+        # publish the uuid of the shared-memory segments as soon as the call has chosen it, so that the parent can
+        # check / clean exactly these segments (other BANE runs may be active on the machine at the same time)
+        while BANE.memory_id is None:
+            time.sleep(0.0005)
+        with open(out_file + ".memid", "w") as fh:
+            fh.write(str(BANE.memory_id))
+    threading.Thread(target=_memid_watch, daemon=True).start()
     try:
         bkg, rms = BANE.filter_mc_sharemem(inst["file"], step_size=tuple(inst["grid"]), box_size=tuple(inst["box"]),
                                            cores=inst["cores"], shape=tuple(inst["shape"]), nslice=inst["nslice"],
@@ -214,9 +224,9 @@ def run_real(inst, regions, labels, schedule, fault, scratch, timeout=60):
     sf = os.path.join(scratch, "real_spec_%d.json" % os.getpid())
     of = os.path.join(scratch, "real_out_%d.json" % os.getpid())
     json.dump(spec, open(sf, "w"))
-    if os.path.exists(of):
-        os.remove(of)
-    before = set(n for n in os.listdir("/dev/shm") if n.startswith(("ibkg_", "irms_")))
+    for x in (of, of + ".memid"):
+        if os.path.exists(x):
+            os.remove(x)
     env = dict(os.environ, AEGEAN_VERIF="1")
     code = "import sys; sys.path.insert(0, %r); from checks import c07_real; c07_real.child_main(%r, %r)" % (
         os.path.dirname(os.path.dirname(os.path.abspath(__file__))), sf, of)
@@ -246,13 +256,16 @@ def run_real(inst, regions, labels, schedule, fault, scratch, timeout=60):
     except (ProcessLookupError, PermissionError):
         pass
     p.wait()
-    after = set(n for n in os.listdir("/dev/shm") if n.startswith(("ibkg_", "irms_")))
-    leaked = sorted(after - before)
-    for n in leaked:
-        try:
-            os.remove(os.path.join("/dev/shm", n))
-        except OSError:
-            pass
+    leaked = []
+    if os.path.exists(of + ".memid"):
+        mid = open(of + ".memid").read().strip()
+        for n in ("ibkg_" + mid, "irms_" + mid):
+            if mid and os.path.exists(os.path.join("/dev/shm", n)):
+                leaked.append(n)
+                try:
+                    os.remove(os.path.join("/dev/shm", n))
+                except OSError:
+                    pass
     if os.environ.get("C07_REAL_DEBUG") and hung:
         print("HUNG; out file exists:", os.path.exists(of), open(of).read()[:300] if os.path.exists(of) else "")
         if os.path.exists(of + ".stacks"):
